@@ -266,6 +266,34 @@ def wrapper_graphs(rng, n):
     return out
 
 
+def unpacking_graphs(rng, n):
+    """casts that unpack what a call returns - a tuple or list of one, two or three values - followed by ordinary operations: a cast is
+    an identity only when it changes nothing about the structure"""
+    import einx._src.tracer as tracer
+    py = tracer.signature.python
+    T = tracer.signature.classical.Tensor
+    out = []
+    for _ in range(n):
+        x = py.Value(None)
+        np_ = py.import_("numpy", as_="np")
+        k = rng.choice([1, 1, 2, 3])
+        how = rng.choice(["nonzero", "split_list", "split_tuple_cast"])
+        if how == "nonzero":
+            data = np.array([rng.randint(0, 2) for _ in range(6)], dtype=np.int64).reshape([(6,), (2, 3), (1, 2, 3)][k - 1])
+            res = np_.nonzero(x)
+            parts = tracer.cast(res, lambda origin, k=k: tuple(py.Value(origin) for _ in range(k)))
+        else:
+            data = np.arange(6, dtype=np.int64) + rng.randint(0, 4)
+            res = np_.split(x, k)
+            mk = (lambda origin, k=k: [py.Value(origin) for _ in range(k)]) if how == "split_list" else (lambda origin, k=k: tuple(py.Value(origin) for _ in range(k)))
+            parts = tracer.cast(res, mk)
+        y = parts[rng.randrange(k)]
+        if rng.random() < 0.5:
+            y = np_.negative(y)
+        out.append((tracer.Graph(inputs=[x], output=y, name="op"), [data], {"unpacking": how, "values": k}))
+    return out
+
+
 def perm_pairs(max_rank):
     """every pair of permutations up to the rank bound (the quantifier named in the property)"""
     import einx._src.tracer as tracer
@@ -296,7 +324,7 @@ def run(ctx):
     quick = ctx.tier == "quick"
     cases = [gencalls.gen_call(ctx.rng) for _ in range(200 if quick else 5000)]
     real = common.pmap(_work_real, cases)
-    syn_items = synthetic(ctx.rng, 600 if quick else 10000) + perm_pairs(4 if quick else 5) + wrapper_graphs(ctx.rng, 60 if quick else 1500)
+    syn_items = synthetic(ctx.rng, 600 if quick else 10000) + perm_pairs(4 if quick else 5) + wrapper_graphs(ctx.rng, 60 if quick else 1500) + unpacking_graphs(ctx.rng, 60 if quick else 1500)
     syn = common.pmap(_work_syn, syn_items)
     adp = common.pmap(_work_adapt, adapter_cases(ctx.rng, 60 if quick else 1500))
     items = [it for its in real + syn + adp for it in its]
